@@ -156,6 +156,44 @@ Proof.
   intros H E. rewrite isclose0_same in H by assumption. discriminate.
 Qed.
 
+(* over the reals the final clamp  min(max(N, lo), hi)  of size_at is the identity on every value
+   between the two sizes, in particular on the end size *)
+Lemma Rlt_bool_intro_false x y : y <= x -> Rlt_bool x y = false.
+Proof.
+  intro H. destruct (Rlt_bool x y) eqn:E; [|reflexivity]. apply Rlt_bool_true in E. lra.
+Qed.
+
+Lemma pymin_R ss i es j : exists k, @pymin NumR (RF ss i) (RF es j) = RF (Rmin ss es) k.
+Proof.
+  unfold pymin. cbn [nlt NumR rx_lt]. destruct (Rlt_bool es ss) eqn:A.
+  - apply Rlt_bool_true in A. rewrite Rmin_right by lra. eauto.
+  - apply Rlt_bool_false in A. rewrite Rmin_left by lra. eauto.
+Qed.
+
+Lemma pymax_R ss i es j : exists k, @pymax NumR (RF ss i) (RF es j) = RF (Rmax ss es) k.
+Proof.
+  unfold pymax. cbn [nlt NumR rx_lt]. destruct (Rlt_bool ss es) eqn:A.
+  - apply Rlt_bool_true in A. rewrite Rmax_right by lra. eauto.
+  - apply Rlt_bool_false in A. rewrite Rmax_left by lra. eauto.
+Qed.
+
+Lemma clamp_id_R (e : @epoch NumR) ss i es j x k :
+  e_ssize e = RF ss i -> e_esize e = RF es j -> Rmin ss es <= x <= Rmax ss es ->
+  @clamp_size NumR e (RF x k) = RF x k.
+Proof.
+  intros Ess Ees [H1 H2]. unfold clamp_size. rewrite Ess, Ees.
+  destruct (pymin_R ss i es j) as [kl ->]. destruct (pymax_R ss i es j) as [kh ->].
+  unfold pymax at 1. cbn [nlt NumR rx_lt]. rewrite (Rlt_bool_intro_false x (Rmin ss es)) by assumption.
+  unfold pymin. cbn [nlt NumR rx_lt]. rewrite (Rlt_bool_intro_false (Rmax ss es) x) by assumption.
+  reflexivity.
+Qed.
+
+Lemma clamp_flat_R (e : @epoch NumR) ss i es j :
+  e_ssize e = RF ss i -> e_esize e = RF es j -> @clamp_size NumR e (RF es j) = RF es j.
+Proof.
+  intros Ess Ees. apply (clamp_id_R e ss i es j); auto. split; [apply Rmin_r | apply Rmax_r].
+Qed.
+
 (* common core, exponential: either the "end size" branch fires (t close to the end, or equal
    sizes), or all times are finite and the formula evaluates without error to ideal_exp *)
 Lemma size_exp_core (e : @epoch NumR) (t : rx) :
@@ -172,9 +210,9 @@ Proof.
     as (ss & es & en & tt & i & j & i2 & i3 & Ess & Ees & Een & Et & Hss & Hes & Hen & Hl & Hst).
   exists ss, es, i, j. repeat (split; [assumption|]).
   unfold size_in_epoch. rewrite Hsf, Ess, Ees, Een, Et.
-  destruct (@isclose0 NumR (RF tt i3) (RF en i2)) eqn:Hc; [left; split; [reflexivity | left; reflexivity]|].
+  destruct (@isclose0 NumR (RF tt i3) (RF en i2)) eqn:Hc; [left; split; [cbn [orb]; f_equal; apply (clamp_flat_R e ss i es j Ess Ees) | left; reflexivity]|].
   simpl String.eqb. cbn [orb].
-  destruct (@neqb NumR (RF ss i) (RF es j)) eqn:He; [left; split; [reflexivity | right; reflexivity]|]. right.
+  destruct (@neqb NumR (RF ss i) (RF es j)) eqn:He; [left; split; [f_equal; apply (clamp_flat_R e ss i es j Ess Ees) | right; reflexivity]|]. right.
   apply isclose0_false_neq in Hc.
   cbn [neqb NumR rx_eqb] in He. apply Req_bool_false in He.
   destruct Hst as [[_ E] | (s & i1 & Es & Hu)]; [contradiction|].
@@ -189,7 +227,8 @@ Proof.
     by (symmetry; destruct (Rle_bool (es / ss) 0) eqn:Q; [apply Rle_bool_true in Q; lra | reflexivity]).
   rewrite (Rlt_bool_intro 0 (es / ss)) by assumption.
   cbn [bind]. unfold pexp. cbn [nmul NumR rx_mul nexp rx_exp nisinf rx_isinf andb bind].
-  unfold ideal_exp. rewrite andb_false_r. reflexivity.
+  rewrite andb_false_r. f_equal. fold (ideal_exp ss es s en tt).
+  apply (clamp_id_R e ss i es j); auto. apply ideal_exp_between; try assumption. lra.
 Qed.
 
 (* in a valid exponential epoch owned by t, size_at's formula evaluates, without error, to the
@@ -317,9 +356,9 @@ Proof.
     as (ss & es & en & tt & i & j & i2 & i3 & Ess & Ees & Een & Et & Hss & Hes & Hen & Hl & Hst).
   exists ss, es, i, j. repeat (split; [assumption|]).
   unfold size_in_epoch. rewrite Hsf, Ess, Ees, Een, Et.
-  destruct (@isclose0 NumR (RF tt i3) (RF en i2)) eqn:Hc; [left; split; [reflexivity | left; reflexivity]|].
+  destruct (@isclose0 NumR (RF tt i3) (RF en i2)) eqn:Hc; [left; split; [cbn [orb]; f_equal; apply (clamp_flat_R e ss i es j Ess Ees) | left; reflexivity]|].
   simpl String.eqb. cbn [orb].
-  destruct (@neqb NumR (RF ss i) (RF es j)) eqn:He; [left; split; [reflexivity | right; reflexivity]|]. right.
+  destruct (@neqb NumR (RF ss i) (RF es j)) eqn:He; [left; split; [f_equal; apply (clamp_flat_R e ss i es j Ess Ees) | right; reflexivity]|]. right.
   apply isclose0_false_neq in Hc.
   cbn [neqb NumR rx_eqb] in He. apply Req_bool_false in He.
   destruct Hst as [[_ E] | (s & i1 & Es & Hu)]; [contradiction|].
@@ -328,7 +367,8 @@ Proof.
   rewrite (Req_bool_intro_false (s - en) 0) by lra.
   cbn [bind nadd nmul nsub NumR rx_add rx_mul rx_sub]. eexists.
   repeat (split; [reflexivity || assumption || lra|]).
-  unfold ideal_lin. reflexivity.
+  f_equal. fold (ideal_lin ss es s en tt).
+  apply (clamp_id_R e ss i es j); auto. apply ideal_lin_between. lra.
 Qed.
 
 Theorem size_linear_exact_R (e : @epoch NumR) (t : rx) :
@@ -378,7 +418,8 @@ Proof.
   destruct (epoch_shape e t V Hown)
     as (ss & es & en & tt & i & j & i2 & i3 & Ess & Ees & Een & Et & Hss & Hes & Hen & Hl & Hst).
   unfold size_in_epoch in Hsz. rewrite Hsf in Hsz. simpl String.eqb in Hsz.
-  rewrite orb_true_r in Hsz. cbn [orb] in Hsz. injection Hsz as <-.
+  rewrite orb_true_r in Hsz. cbn [orb] in Hsz. rewrite Ees in Hsz.
+  rewrite (clamp_flat_R e ss i es j Ess Ees) in Hsz. rewrite <- Ees in Hsz. injection Hsz as <-.
   split; [reflexivity|]. rewrite Ess, Ees. apply between_bool_end.
 Qed.
 
